@@ -66,7 +66,11 @@ func buildStream(byName map[string]cat.Envelope, names []string, s cat.Ser) (*st
 		// smallest of several encodings so that a stream is the same bytes in every worker and replay.
 		var best []byte
 		var bestStarts []int
-		for k := 0; k < 8; k++ {
+		tries := 1
+		if e.Addr2 {
+			tries = 64 // only reachable through a replay file or a changed plan: the plan avoids these entries
+		}
+		for k := 0; k < tries; k++ {
 			b, starts, err, _ := encodeEnv(s, e.New())
 			if err != nil {
 				return nil, fmt.Errorf("encoding %s: %v", n, err)
@@ -236,7 +240,7 @@ func streamPlan(envs []cat.Envelope, thorough bool) (plan [][]string) {
 		}
 	}
 	for _, e := range envs {
-		if !e.Rep && e.Big == 0 && e.Ser == cat.Both && second[e.Msg] == "" {
+		if !e.Rep && e.Big == 0 && e.Ser == cat.Both && !e.Addr2 && second[e.Msg] == "" {
 			second[e.Msg] = e.Name
 		}
 	}
